@@ -140,7 +140,9 @@ def networks(tier, seed):
     def N(label, reacs, **kw):
         def f():
             fresh_species_state()
-            return Network([mk_reaction(*r[:2], **(r[2] if len(r) > 2 else {})) for r in reacs] or None, **kw)
+            net = Network([mk_reaction(*r[:2], **(r[2] if len(r) > 2 else {})) for r in reacs] or None, **kw)
+            net._vf_declared_names = {n for r in reacs for n in list(r[0]) + list(r[1]) if n not in ("CR", "CRP", "PHOTON", "CRPHOT", "Photon")} | set(kw.get("required_species", []))
+            return net
         return label, f
 
     yield N("empty", [])
@@ -157,12 +159,20 @@ def networks(tier, seed):
     yield N("many-products", [(["CH5+", "e-"], ["C", "H2", "H", "H", "H"], dict(alpha=1.0)), (["C", "H2"], ["CH", "H"], dict(alpha=2.0))])
     yield N("ice", [(["#H", "#H"], ["#H2"], dict(alpha=1.0)), (["H"], ["#H"], dict(alpha=2.0)), (["GRAIN0", "e-"], ["GRAIN-"], dict(alpha=3.0)),
                     (["GRAIN-", "H+"], ["GRAIN0", "H"], dict(alpha=4.0))])
+    yield N("charge-ladder", [(["GRAIN0", "e-"], ["GRAIN-"], dict(alpha=1.0)), (["GRAIN-", "e-"], ["GRAIN--"], dict(alpha=2.0)),
+                              (["GRAIN--", "H+"], ["GRAIN-", "H"], dict(alpha=3.0)), (["C", "C++"], ["C+", "C+"], dict(alpha=4.0)),
+                              (["C-", "C+"], ["C", "C"], dict(alpha=5.0)), (["C--", "C++"], ["C", "C"], dict(alpha=6.0))])
+    yield N("long-chains", [(["C11", "H"], ["HC11"], dict(alpha=1.0)), (["HC11", "N"], ["HC11N"], dict(alpha=2.0)), (["C", "C10H2"], ["C11", "H2"], dict(alpha=5.0)),
+                            (["C10H2", "C2H"], ["C12H3"], dict(alpha=3.0)), (["C12H3", "O"], ["C11", "HCO", "H2"], dict(alpha=4.0))])
     cool_reacs = [(["H", "e-"], ["H+", "e-", "e-"], dict(alpha=1.0)), (["He", "e-"], ["He+", "e-", "e-"], dict(alpha=2.0)),
                   (["He+", "e-"], ["He++", "e-", "e-"], dict(alpha=3.0)), (["H+", "e-"], ["H"], dict(alpha=4.0))]
     yield N("cooling-1", cool_reacs, cooling=["CIC_HI"])
     yield N("cooling-4", cool_reacs, cooling=["CIC_HI", "CIC_HeI", "CIC_He_2S", "RC_HII"])
     yield N("rate-mod", [(["C", "H"], ["CH"], dict(alpha=1.0, idx=5)), (["CH", "H"], ["C", "H2"], dict(alpha=2.0, idx=7)),
                          (["H2", "C"], ["CH", "H"], dict(alpha=3.0, idx=5))], rate_modifier={5: "1.5 * kmod", 9: "2.0"})
+    yield N("partly-indexed-rate-mod", [(["C", "H"], ["CH"], dict(alpha=1.0, idx=1)), (["CH", "H"], ["C", "H2"], dict(alpha=2.0, idx=2)),
+                                        (["H2", "C"], ["CH", "H"], dict(alpha=3.0)), (["CH", "C"], ["C2", "H"], dict(alpha=4.0))],
+            rate_modifier={2: "9.5", 3: "7.5"})
     yield N("unindexed-rate-mod", [(["C", "H"], ["CH"], dict(alpha=1.0)), (["CH", "H"], ["C", "H2"], dict(alpha=2.0))],
             rate_modifier={1: "3.5"})
     yield N("ode-mod-1", [(["H", "H"], ["H2"], dict(alpha=1.0)), (["H2", "C"], ["CH", "H"], dict(alpha=2.0))],
@@ -337,12 +347,18 @@ def check_network(label, net, tier, seed, want):
 
     rnd = random.Random(99 + seed)
     dense_cache = {}
+    # the index a rate-modifier key refers to is the one visible BEFORE rendering: the index read from the file, or the position
+    # when no reaction of the network carries an index (documented re-indexing); an unindexed reaction of a partly indexed network is
+    # never targeted
+    _idx0 = [r.idxfromfile for r in net.reactions]
+    key_of = list(range(len(_idx0))) if all(i == -1 for i in _idx0) else [(i if i != -1 else None) for i in _idx0]
     for backend in BACKENDS:
         bname = "/".join(backend[:2])
         try:
             R = Rendered(net, backend)
         except Exception as e:
-            V("C01", f"render-failed: {type(e).__name__}: {e}", backend=bname)
+            for p_ in sorted(want):
+                V(p_, f"render-failed: {type(e).__name__}: {e}", backend=bname)
             continue
         mac = R.macros
         species, nspec = R.species, len(R.species)
@@ -375,8 +391,8 @@ def check_network(label, net, tier, seed, want):
                 if i not in last:
                     V("C13", f"rate-statement-missing: no assignment to k[{i}] in EvalRates", backend=bname)
                     continue
-                key = reac.idxfromfile
-                if key in net.rate_modifier:
+                key = key_of[i] if i < len(key_of) else reac.idxfromfile
+                if key is not None and key in net.rate_modifier:
                     if norm(last[i]) != norm(str(net.rate_modifier[key])):
                         V("C13", f"rate-override-not-applied: reaction {i} carries index {key} (modifier {net.rate_modifier[key]!r}) but k[{i}] = {last[i].strip()[:80]!r}", backend=bname)
                 else:
@@ -554,6 +570,38 @@ def check_network(label, net, tier, seed, want):
     return viol
 
 
+_ELEMS = ["GRAIN", "He", "Si", "Mg", "Fe", "Na", "Cl", "H", "D", "C", "N", "O", "S", "P", "F"]
+
+
+def indep_identity(name):
+    """(phase, composition, charge) of a species name, parsed independently of naunet (None if the spelling is outside this
+    mini grammar: [#|G-before-capital] (Element [count])+ [+...|-...], the electron spelled e- / E / E-)"""
+    if name in ("e-", "E", "E-", "e"):
+        return ("gas", (("e", 1),), -1)
+    m = re.fullmatch(r"(#?)(.*?)(\+*|-*)", name)
+    phase, body, chg = m.group(1), m.group(2), m.group(3)
+    charge = len(chg) if chg.startswith("+") else -len(chg)
+    comp, i = {}, 0
+    while i < len(body):
+        for e in _ELEMS:
+            if body.startswith(e, i):
+                i += len(e)
+                mm = re.match(r"\d+", body[i:])
+                n = int(mm.group()) if mm else 1
+                if mm:
+                    i += mm.end()
+                if e == "GRAIN":
+                    comp["GRAIN"] = comp.get("GRAIN", 0) + 1      # the number after GRAIN is a group label, not a count
+                else:
+                    comp[e] = comp.get(e, 0) + n
+                break
+        else:
+            return None
+    if not comp:
+        return None
+    return ("ice" if phase else "gas", tuple(sorted(comp.items())), charge)
+
+
 def conservation(label, net, R, got, yv, env, bname):
     """balanced network => weighted sums of the emitted derivatives vanish; GetElementAbund == sum count*y"""
     out = []
@@ -565,6 +613,33 @@ def conservation(label, net, R, got, yv, env, bname):
     elems = sorted({e for sp in species for e in sp.element_count})
     comp = {i: dict(sp.element_count) for i, sp in enumerate(species)}
     charge = {i: sp.charge for i, sp in enumerate(species)}
+    # independent reading of the names: the tool's own composition / charge must agree with it, and species that differ in it must
+    # not share a slot (the weights below would otherwise follow a defect of the parser instead of exposing it)
+    declared = getattr(net, "_vf_declared_names", None)
+    for i, sp in enumerate(species):
+        ident = indep_identity(sp.name)
+        if ident is None or sp.name.startswith("G") and sp.is_surface:
+            continue
+        want_comp = {k: v for k, v in ident[1] if k not in ("e",)}
+        have_comp = {k: v for k, v in comp[i].items() if v}
+        if ident[1] != (("e", 1),) and have_comp != want_comp:
+            V(f"composition: {sp.name} is read as {have_comp}, the name says {want_comp}")
+        if charge[i] != ident[2]:
+            V(f"charge: {sp.name} is read with charge {charge[i]}, the name says {ident[2]}")
+    if declared:
+        idents = {}
+        for nm in declared:
+            ident = indep_identity(nm)
+            if ident is not None and not nm.startswith("G"):
+                idents.setdefault(ident, set()).add(nm)
+        slots = {}
+        for nm in declared:
+            ident = indep_identity(nm)
+            if ident is None or nm.startswith("G"):
+                continue
+            hit = [i for i, sp in enumerate(species) if indep_identity(sp.name) == ident]
+            if len(hit) != 1:
+                V(f"slots: species {nm} of the network description has {len(hit)} slots among {[s.name for s in species]}")
 
     def total(sp_list, key):
         if key == "charge":
